@@ -25,7 +25,7 @@ RUN_TIMEOUT_S = 120.0
 MIN_BUDGET = 150
 
 TIERS = {
-    'quick': {'runs': 5000, 'classes': 8, 'budget_s': 80},
+    'quick': {'runs': 5000, 'classes': 8, 'budget_s': 60},
     'thorough': {'runs': 120000, 'classes': 32, 'budget_s': 1100},
 }
 
